@@ -217,6 +217,20 @@ def merge_{tag}({params}) -> bool:
 def replay_merge_{tag}({", ".join(ss)}):
     return replay_kids({kids})
 ''')
+    for L in range(0, 3 if quick else 4):
+        pre = " and ".join([f"len(v) == {L}"] + [f"v[{i}] in ACH" for i in range(L)])
+        out.append(f'''
+def attrs_{L}(v: str, table_row: bool) -> bool:
+    """
+    pre: {pre}
+    post: _
+    """
+    return attrs_clean(v, table_row)
+
+
+def replay_attrs_{L}(v, table_row):
+    return replay_attrs(v, table_row)
+''')
     return "\n".join(out)
 
 
@@ -235,7 +249,8 @@ def run(rep: C.Report) -> None:
     xh.check_harness(
         rep,
         H,
-        {"^merge_": dict(name="Ob4 merge kernel: no empty string, no adjacent strings, no placeholder character, nodes kept", functions=["parser.py:_parser_merge_str_children", "core.py:Wtp._finalize_expand"], bounds=f"children lists of {3 if quick else 4} entries (every node/string skeleton), strings <= {1 if quick else 2} symbolic chars over {{a, newline, nowiki-, bracket-placeholders}}")},
+        {"^attrs_": dict(name="Ob5 no placeholder character survives in attribute values when a node is popped", functions=["parser.py:_parser_pop"], bounds=f"attribute value of 0..{2 if quick else 3} symbolic chars over {{a, space, placeholder}}; HTML element and table row"),
+         "^merge_": dict(name="Ob4 merge kernel: no empty string, no adjacent strings, no placeholder character, nodes kept", functions=["parser.py:_parser_merge_str_children", "core.py:Wtp._finalize_expand"], bounds=f"children lists of {3 if quick else 4} entries (every node/string skeleton), strings <= {1 if quick else 2} symbolic chars over {{a, newline, nowiki-, bracket-placeholders}}")},
         timeout=60 if quick else 300,
         src=src,
         batch=2,
